@@ -55,7 +55,7 @@ var valKeys = []*ecdsa.PrivateKey{
 	mustKey("77cfc693f7861a6e1ea817c593c04fbc9b63d4d3146c5753c008cfc67cffca79"),
 	mustKey("98de1df1e242afb02bd5dc01fbcacddcc9a4d41df95a66f629139560ca6e4dbb"),
 }
-var valSelfDelegate = []string{"12500000000000000000000000", "7300000000000000000000000", "9100000000000000000000000"}
+var valSelfDelegate = []string{"12500000000000000000000000", "13700000000000000000000000", "15100000000000000000000000"}
 var keyA = mustKey("b71c71a67e1177ad4e901695e1b4b9ee17ae16c6668d313eac2f96dbcda3f291")
 var keyB = mustKey("49a7b37aa6f6645917e7b807e9d1c00d4fa71f18343b0d4122a4d2df64dd6fee")
 var addrA = crypto.PubkeyToAddress(keyA.PublicKey)
